@@ -62,6 +62,38 @@ def run(ctx):
             r.fail(rule, key, 'the sender pads %s chunks (padding_size is non-zero whenever policy and mode are not None) but %s never removes padding: '
                               'the padding bytes stay in the chunk body' % (kind, fn), loc=fb.loc if fb else '')
     r.floor(rule, 'padded_header_kinds', len(padded), 2)
+    # the sender's condition for padding must not be narrower than the receiver's condition for stripping: the asymmetric
+    # receiver strips whenever the policy is not None (no test of the message security mode), so the sender has to pad for
+    # every mode but None
+    conds = []
+    for bi, blk in enumerate(pb.blocks):
+        if blk['c']:
+            continue
+        for si, st in enumerate(blk['s']):
+            if st[0] == '=' and st[1] == [0, []] and st[2][0] == 'agg' and st[2][1] == 'tuple':
+                v = fmt_sym(pb, F.sym_rvalue(st[2], 0, bi))
+                if v.replace(' ', '') in ('tuple{0,0}', 'tuple{0_usize,0_usize}'):
+                    continue
+                conds.append([fmt_lit(pb, l) for l, e in F.literals_at(bi, si) if 'security_mode' in fmt_lit(pb, l) or 'security_policy' in fmt_lit(pb, l)])
+    recv_mode = []
+    ab = db.body(SC + 'asymmetric_decrypt_and_verify')
+    if ab is not None:
+        Fa = ctx.facts(ab)
+        for c in ab.calls():
+            if c.callee.endswith('verify_padding'):
+                recv_mode += [fmt_lit(ab, l) for l, e in Fa.literals_at(c.bb) if 'security_mode' in fmt_lit(ab, l)]
+    if not conds:
+        r.lost(rule, 'sender:condition', 'padded result of padding_size not found')
+    else:
+        okc = all(any(re.match(r'^\(\*self\(_1\)\)\.security_mode ne MessageSecurityMode::None$', x) for x in cs) and
+                  not any(re.search(r'security_mode (eq|is) ', x) or re.search(r'security_mode ne MessageSecurityMode::(Sign|SignAndEncrypt)', x) for x in cs) for cs in conds)
+        if okc and not recv_mode:
+            r.ok(rule, 'sender:condition', 'the sender pads for every message security mode but None; the asymmetric receiver strips regardless of the mode', loc=pb.loc)
+        elif recv_mode:
+            r.fail(rule, 'sender:condition', 'the asymmetric receiver now conditions padding removal on the mode (%s): re-derive the agreement' % recv_mode[:1], loc=pb.loc)
+        else:
+            r.fail(rule, 'sender:condition', 'padding_size pads only under %s, but the receiver of OpenSecureChannel chunks removes padding for every mode: an OPN chunk '
+                   'sent in a mode the sender does not pad for is rejected or loses body bytes' % [x for cs in conds for x in cs if 'security_mode' in x][:2], loc=pb.loc)
     chunk_headers(ctx)
     padding_arithmetic(ctx)
 
